@@ -283,7 +283,9 @@ impl<T: Eq + Hash> FrequentItemsSketch<T> {
     where
         T: Clone,
     {
-        if other.is_empty() {
+        // A purge can remove every counter, so `other` may track no items and still carry
+        // stream weight and accumulated error that must be merged.
+        if other.stream_weight == 0 {
             return;
         }
         let merged_total = self.stream_weight + other.stream_weight;
